@@ -80,6 +80,16 @@ type FnCtx struct {
 	modSet    map[string]bool
 	callees   map[string]bool
 	freshWrite bool
+	cellOnly  map[string][]*ssa.FreeVar
+}
+
+func freeVarNamed(fn *ssa.Function, name string) *ssa.FreeVar {
+	for _, fv := range fn.FreeVars {
+		if fv.Name() == name {
+			return fv
+		}
+	}
+	return nil
 }
 
 func (fx *FnCtx) declare(name, sort string) {
@@ -415,6 +425,12 @@ func (fx *FnCtx) callWrites(c *ssa.CallCommon, locals map[*ssa.Alloc]bool, comps
 		pkg = callee.Pkg.Pkg
 	}
 	for _, m := range fc.Modifies {
+		if callee != nil {
+			if fv := freeVarNamed(callee, m); fv != nil {
+				comps["P$"+typeKey(deref(fv.Type()))] = true
+				continue
+			}
+		}
 		cs, err := fx.P.modComps(pkg, m)
 		if err != nil {
 			fx.errf("contract of %s: %v", fc.Key, err)
@@ -542,7 +558,7 @@ func newFnCtx(P *Prog, fn *ssa.Function, fc *FuncContract) *FnCtx {
 	fx := &FnCtx{P: P, fn: fn, fc: fc, key: fn.Pkg.Pkg.Name() + "." + fnKey(fn), declared: map[string]string{}, vals: map[ssa.Value]Term{},
 		tuples: map[ssa.Value][]Term{}, reach: map[*ssa.BasicBlock]Term{}, outSt: map[*ssa.BasicBlock]*State{}, edgeCond: map[[2]int]Term{},
 		compSort: map[string]string{}, written: map[string]bool{}, counter: map[string]int{}, closures: map[ssa.Value]*ssa.MakeClosure{},
-		allocByPos: map[token.Pos]*ssa.Alloc{}, notes: map[string]bool{}, paramTerm: map[string]Val{}, callCount: map[string]int{}, callees: map[string]bool{}}
+		allocByPos: map[token.Pos]*ssa.Alloc{}, notes: map[string]bool{}, paramTerm: map[string]Val{}, callCount: map[string]int{}, callees: map[string]bool{}, cellOnly: map[string][]*ssa.FreeVar{}}
 	fx.mode = "int"
 	if fc.Mode != "" {
 		fx.mode = fc.Mode
@@ -565,6 +581,17 @@ func (fx *FnCtx) generate() {
 	// modifies set
 	fx.modSet = map[string]bool{}
 	for _, m := range fx.fc.Modifies {
+		if fv := freeVarNamed(fn, m); fv != nil {
+			// cell-level: only the captured variable itself may be written through this component
+			c := "P$" + typeKey(deref(fv.Type()))
+			if _, isStruct := deref(fv.Type()).Underlying().(*types.Struct); isStruct {
+				fx.errf("contract of %s: captured struct variable %s in modifies is not supported", fx.key, m)
+				continue
+			}
+			fx.modSet[c] = true
+			fx.cellOnly[c] = append(fx.cellOnly[c], fv)
+			continue
+		}
 		cs, err := P.modComps(fn.Pkg.Pkg, m)
 		if err != nil {
 			fx.errf("contract of %s: %v", fx.key, err)
